@@ -99,7 +99,9 @@ NLARGS_ATOMS = ['\\flag', '\\flag*', '\\ttl{H}', '\\ttl{H}\\label{a}', '\\ttl', 
                 # embellishment arguments of every form, with and without blanks after the marker
                 '\\emb^ \\alpha', '\\emb_ ~', '\\emb^ x', '\\emb^ {x}', '\\emb_%c\n y', '\\emb^\\alpha_ \\alpha',
                 # a macro declared through a pylatexenc-2 arguments parser object
-                '\\lgc', '\\lgc*', '\\lgc[a]{b}', '\\lgc*{b}', '\\lgc *', '\\lgd{a}', '\\lgd{a}*', '\\lgd']
+                '\\lgc', '\\lgc*', '\\lgc[a]{b}', '\\lgc*{b}', '\\lgc *', '\\lgd{a}', '\\lgd{a}*', '\\lgd',
+                # ... with blanks / a line end in front of a later argument (the star, the group)
+                '\\lgd{a} *', '\\lgd{a}\n*x', '\\lgd {a}  * ', '\\lgc* {b}', '\\lgc*\n{b}']
 
 
 def nlargs_strings(rng, count):
